@@ -193,3 +193,155 @@ Example C15_nonvacuous :
   sf_bal s 1 = 16453495 /\ sup s 3 = 30996372 /\ hold s 1 3 = 0 /\ fbal s 1 = 0 /\
   is_ok (step (run init_st (firstn 5 nv_ops)) (nth 5 nv_ops (Xfer 0 0 0 0))) = true.
 Proof. split; [repeat constructor | vm_compute; repeat split; reflexivity]. Qed.
+
+(** ==================================================================================================
+    The interface laws assumed above, proved on the CALLEE models where those exist (Proofs/LawsC15.v):
+    L4, L5 (and L3 on the staking farm's own stakeFarmThroughProxy) are theorems of the position-level staking
+    model Model/StakingPos.v; [answer_of_...] is the explicit mapping from the callee's outputs to the answer
+    record the proxy model consumes.  Qualified names throughout. *)
+From MX Require Import Base.Prelude Gen.Params Model.ProxyDex.
+From MX Require Model.MetaStaking Model.Staking Model.StakingPos Proofs.StakingPosProofs.
+From MX Require Model.Pair Model.Farm Model.FarmLocked Model.Energy Model.Penalty Proofs.EnergyProofs Proofs.FarmLockedProofs.
+From MX Require Proofs.LawsC15 Proofs.LawsC16.
+
+Module MS := MX.Model.MetaStaking.
+Module ST := MX.Model.Staking.
+Module SP := MX.Model.StakingPos.
+Module SPP := MX.Proofs.StakingPosProofs.
+Module FL := MX.Model.FarmLocked.
+Module EN := MX.Model.Energy.
+Module ENP := MX.Proofs.EnergyProofs.
+Module L15 := MX.Proofs.LawsC15.
+Module L16 := MX.Proofs.LawsC16.
+
+
+(** ================================================================== C15 *)
+(** L4 - claimRewardsWithNewValue(v) on the farm token (n, a) returns a farm token of amount v.
+    [rest] = the answers of the other callees in the same record. *)
+Theorem C15_law_L4_staking_model : forall sp blk ep c u n a v b sp' o rest,
+  SPP.Inv sp ->
+  SP.pstep sp (SP.PClaimNewValue blk ep c u (n, a) v b) = Ok (sp', o) ->
+  exists e,
+    L15.answer_of_claimRewardsWithNewValue rest o = Some e /\
+    MS.law_L4 v e = true /\
+    MS.ec_fail e = MS.ec_fail rest /\ MS.ec_sp e = MS.ec_sp rest /\ MS.ec_lpn e = MS.ec_lpn rest /\
+    MS.ec_lpa e = MS.ec_lpa rest /\ MS.ec_rl e = MS.ec_rl rest /\
+    c = ST.PROXY /\
+    MS.ec_sfn e = ST.s_next (SP.p_s sp) /\ SP.find_sattrs (SP.p_attrs sp) (MS.ec_sfn e) = None /\
+    (exists m, SP.find_sattrs (SP.p_attrs sp') (MS.ec_sfn e) = Some m /\ SP.sa_amt m = MS.ec_sfa e /\ SP.sa_owner m = u) /\
+    SP.held sp' (MS.ec_sfn e) c = MS.ec_sfa e /\
+    0 < a <= SP.held sp n c /\ n < MS.ec_sfn e /\ SP.held sp' n c = SP.held sp n c - a /\
+    0 <= MS.ec_sfa e /\ 0 <= MS.ec_rs e /\
+    ST.s_supply (SP.p_s sp') = ST.s_supply (SP.p_s sp) + MS.registered [MS.CStkClaim n a v] /\
+    ST.s_virt (SP.p_s sp') = ST.s_virt (SP.p_s sp) + MS.registered [MS.CStkClaim n a v].
+Proof. exact L15.L4_staking. Qed.
+Print Assumptions C15_law_L4_staking_model.
+
+(** L5 - unstakeFarmThroughProxy with [stk] staking tokens and the farm token (n, a) returns an unbond
+    token of exactly [stk]. *)
+Theorem C15_law_L5_staking_model : forall sp blk ep c u n a stk b sp' o rest,
+  SPP.Inv sp ->
+  SP.pstep sp (SP.PUnstakeProxy blk ep c u (n, a) stk b) = Ok (sp', o) ->
+  exists e,
+    L15.answer_of_unstakeFarmThroughProxy rest o = Some e /\
+    MS.law_L5 stk e = true /\
+    MS.eu_fail e = MS.eu_fail rest /\ MS.eu_lp e = MS.eu_lp rest /\ MS.eu_rl e = MS.eu_rl rest /\
+    MS.eu_rm e = MS.eu_rm rest /\
+    c = ST.PROXY /\
+    MS.eu_ubn e = ST.s_next (SP.p_s sp) /\
+    ST.find_z (ST.s_ub (SP.p_s sp')) (MS.eu_ubn e) = Some (ep + ST.s_minub (SP.p_s sp)) /\
+    SP.ubheld sp' (MS.eu_ubn e) c = SP.ubheld sp (MS.eu_ubn e) c + MS.eu_uba e /\
+    ST.s_bal (SP.p_s sp') = ST.s_bal (SP.p_s sp) + stk - MS.eu_rs e /\
+    0 < a <= SP.held sp n c /\ SP.held sp' n c = SP.held sp n c - a /\
+    0 < MS.eu_uba e /\ 0 <= MS.eu_rs e /\
+    ST.s_supply (SP.p_s sp') = ST.s_supply (SP.p_s sp) + MS.registered [MS.CStkUnstake stk n a] /\
+    ST.s_virt (SP.p_s sp') = ST.s_virt (SP.p_s sp) + MS.registered [MS.CStkUnstake stk n a].
+Proof. exact L15.L5_staking. Qed.
+Print Assumptions C15_law_L5_staking_model.
+
+(** L3 on the staking farm's own endpoint (Props/C15.v has it on Model/Farm.v, the shared enter code) *)
+Theorem C15_law_L3_staking_model : forall sp blk ep c u v toks b sp' o rest,
+  SPP.Inv sp ->
+  SP.pstep sp (SP.PStakeProxy blk ep c u v toks b) = Ok (sp', o) ->
+  exists e,
+    L15.answer_of_stakeFarmThroughProxy rest o = Some e /\
+    MS.es_sfa e = v + L15.tok_sum toks /\
+    (forall parts, toks = map (fun p => (MS.d_sfn p, MS.d_sfa p)) parts -> MS.law_L3 v parts e = true) /\
+    c = ST.PROXY /\ MS.es_sfn e = ST.s_next (SP.p_s sp) /\ 0 <= MS.es_bs e.
+Proof. exact L15.L3_staking. Qed.
+Print Assumptions C15_law_L3_staking_model.
+
+(** C15_safe_claim / C15_unstake with the law hypothesis discharged by the staking-farm model *)
+Theorem C15_claim_closed_staking_model : forall s c oc pays e s' out cs sp blk ep u b sp' so,
+  MS.step s (MS.Claim c oc pays e) = Ok (s', out, cs) ->
+  SPP.Inv sp ->
+  (forall n a v, In (MS.CStkClaim n a v) cs ->
+     SP.pstep sp (SP.PClaimNewValue blk ep ST.PROXY u (n, a) v b) = Ok (sp', so)) ->
+  L15.answer_of_claimRewardsWithNewValue e so = Some e ->
+  exists v ot oa n' new,
+    MS.pick_staking (MS.ec_sp e) = Ok (v, ot, oa) /\ In (n', new) (MS.s_attrs s') /\
+    out = [MS.ec_rl e; MS.ec_rs e; n'; MS.d_sfa new] /\ MS.d_sfa new = v /\
+    exists n a, In (MS.CStkClaim n a v) cs /\
+      ST.s_supply (SP.p_s sp') = ST.s_supply (SP.p_s sp) + MS.registered cs.
+Proof. exact L15.claim_closed. Qed.
+Print Assumptions C15_claim_closed_staking_model.
+
+Theorem C15_unstake_closed_staking_model : forall s c oc n p m1 m2 e s' out cs sp blk ep u b sp' so,
+  MS.step s (MS.Unstake c oc [(MS.TK_DY, n, p)] m1 m2 e) = Ok (s', out, cs) ->
+  SPP.Inv sp ->
+  (forall stk k a, In (MS.CStkUnstake stk k a) cs ->
+     SP.pstep sp (SP.PUnstakeProxy blk ep ST.PROXY u (k, a) stk b) = Ok (sp', so)) ->
+  L15.answer_of_unstakeFarmThroughProxy e so = Some e ->
+  exists stk ot oa,
+    MS.pick_staking (MS.eu_rm e) = Ok (stk, ot, oa) /\
+    out = [oa; MS.eu_rl e; MS.eu_rs e; MS.eu_ubn e; MS.eu_uba e] /\ MS.eu_uba e = stk /\
+    SP.ubheld sp' (MS.eu_ubn e) ST.PROXY = SP.ubheld sp (MS.eu_ubn e) ST.PROXY + stk /\
+    ST.s_supply (SP.p_s sp') = ST.s_supply (SP.p_s sp) - p.
+Proof. exact L15.unstake_closed. Qed.
+Print Assumptions C15_unstake_closed_staking_model.
+
+
+(** ================================================================== non-vacuity
+    The hypotheses are satisfiable on concrete reachable callee states, and the composition runs:
+    C15 - the staking history of Props/C07.v up to the proxy's claimRewardsWithNewValue (position 3,
+          700000 -> 800000) and unstakeFarmThroughProxy (300000 of the re-minted position with 300000
+          staking tokens): both succeed, [Inv] holds, the decoded answers satisfy L4 / L5;
+    C16 - a pair with liquidity answers addLiquidity and removeLiquidity, the locked farm of
+          Proofs/FarmLockedProofs.v answers enterFarm and an early exitFarm (1 % penalty: 99 of 100 back),
+          the energy factory merges two locked tokens (360 and 720 -> 1000 + 3000 = 4000 tokens); the
+          proxy endpoints run on these answers and evaluate [x_law] to true. *)
+Definition nv_sp_ops : list SP.pop :=
+  [SP.PAdmin (ST.SSetRate 10 ST.OWNER 1000); SP.PAdmin (ST.SSetState ST.OWNER 1); SP.PAdmin (ST.STopUp ST.OWNER 1000000000);
+   SP.PAdmin (ST.SStart 10 ST.OWNER); SP.PAdmin (ST.SSetPct 10 ST.OWNER 2500); SP.PAdmin (ST.SSetFactors ST.OWNER);
+   SP.PStake 12 5 1 1 1000000 [] 0; SP.PStake 15 5 2 2 2500000 [] 0; SP.PStakeProxy 16 5 ST.PROXY 3 700000 [] 0;
+   SP.PClaim 20 6 1 1 (1, 600000) 0; SP.PTransfer 2 2 1 500000;
+   SP.PStake 30 9 1 1 7 [(2, 500000); (1, 400000)] 0; SP.PCompound 31 9 2 (2, 1000000) [] 0; SP.PUnstake 32 9 2 2 (2, 1000000) 0].
+
+Definition nv_rest_claim : MS.env_claim := MS.mkEC false (2, 5, 1, 800000) 9 500 7 0 0 0.
+Definition nv_rest_unstake : MS.env_unstake := MS.mkEU false 500 7 (2, 5, 1, 300000) 0 0 0.
+
+Example C15_laws_nonvacuous :
+  Forall SPP.pvalid_op nv_sp_ops /\
+  let sp := SPP.preach 1000000 1000000000 1 nv_sp_ops in
+  match SP.pstep sp (SP.PClaimNewValue 33 9 ST.PROXY 3 (3, 700000) 800000 0) with
+  | Ok (sp', o) =>
+      match L15.answer_of_claimRewardsWithNewValue nv_rest_claim o with
+      | Some e =>
+          MS.law_L4 800000 e = true /\ MS.ec_sfn e = 8 /\ MS.ec_sfa e = 800000 /\ 0 < MS.ec_rs e /\ MS.ec_lpa e = 500 /\
+          match SP.pstep sp' (SP.PUnstakeProxy 34 9 ST.PROXY 3 (8, 300000) 300000 0) with
+          | Ok (_, o2) =>
+              match L15.answer_of_unstakeFarmThroughProxy nv_rest_unstake o2 with
+              | Some e2 => MS.law_L5 300000 e2 = true /\ MS.eu_uba e2 = 300000 /\ MS.eu_ubn e2 = 9 /\ 0 < MS.eu_rs e2
+              | None => False
+              end
+          | Err _ => False
+          end
+      | None => False
+      end
+  | Err _ => False
+  end.
+Proof.
+  split.
+  - unfold nv_sp_ops. repeat (constructor; [cbn; unfold FarmInv.valid_id, ST.PROXY; try lia; exact I|]). constructor.
+  - vm_compute. repeat split; reflexivity.
+Qed.
